@@ -1,4 +1,5 @@
 import AtreeProofs.Props.TransMapRestructPromote
+import AtreeProofs.Props.TransMapRestructMorHeap
 /-
   Non-vacuity of `Ob_MergeOrRebalanceChildSlab_heap` and `Ob_promote_heap` (Props/TransMapRestructMor.lean,
   TransMapRestructPromote.lean): concrete small slabs over a concrete heap meet every hypothesis, and the generated code
@@ -120,6 +121,51 @@ example : (let q := (rsOf 100).promote (md_map (⟨1, mrx_root, 7, 0, 5⟩ : OMa
       | _ => none)) =
     (none, [.store ⟨1, 9⟩, .remove ⟨1, 2⟩], true, some (10, some (7, 0, 5))) := by
   rfl
+
+/-! ### the hypothesis of `Ob_MergeOrRebalanceChildSlab_heapPost` is met by the state of the first example -/
+
+private theorem mrx_at (j : Nat) (c : MTree 0 1)
+    (hj : mrm_at (mrx_parent [mrx_l, mrx_c, mrx_r]) mrx_c 1 j = some c) :
+    (j = 0 ∧ c = mrx_l) ∨ (j = 1 ∧ c = mrx_c) ∨ (j = 2 ∧ c = mrx_r) := by
+  rcases j with _ | _ | _ | j
+  · have e : some mrx_l = some c := hj
+    cases e; exact Or.inl ⟨rfl, rfl⟩
+  · have e : some mrx_c = some c := hj
+    cases e; exact Or.inr (Or.inl ⟨rfl, rfl⟩)
+  · have e : some mrx_r = some c := hj
+    cases e; exact Or.inr (Or.inr ⟨rfl, rfl⟩)
+  · simp [mrm_at, mrx_parent] at hj
+
+private theorem mrx_i1 : md_ids 1 mrx_l = [⟨1, 1⟩] := rfl
+private theorem mrx_i2 : md_ids 1 mrx_c = [⟨1, 2⟩] := rfl
+private theorem mrx_i3 : md_ids 1 mrx_r = [⟨1, 3⟩] := rfl
+private theorem mrx_k1 : mrm_kidIds 1 mrx_l = [] := rfl
+private theorem mrx_k2 : mrm_kidIds 1 mrx_c = [] := rfl
+private theorem mrx_k3 : mrm_kidIds 1 mrx_r = [] := rfl
+private theorem mrx_pid : (mrx_parent [mrx_l, mrx_c, mrx_r]).hdr.id = ⟨1, 9⟩ := rfl
+
+example : mrm_MorHeld (mrx_s mrx_l mrx_r) 1 (mrx_parent [mrx_l, mrx_c, mrx_r]) mrx_c 1 where
+  kidsChild := fun c hc => absurd hc List.not_mem_nil
+  others := by
+    intro j c hj hc
+    rcases j with _ | _ | _ | j
+    · have e : some mrx_l = some c := hc
+      cases e; exact ⟨rfl, fun c hc => absurd hc List.not_mem_nil⟩
+    · exact absurd rfl hj
+    · have e : some mrx_r = some c := hc
+      cases e; exact ⟨rfl, fun c hc => absurd hc List.not_mem_nil⟩
+    · simp [mrx_parent] at hc
+  parent := by
+    intro j c hj
+    rcases mrx_at j c hj with ⟨_, rfl⟩ | ⟨_, rfl⟩ | ⟨_, rfl⟩ <;> simp [mrx_i1, mrx_i2, mrx_i3, mrx_pid]
+  disj := by
+    intro i j a b hij hi hj
+    rcases mrx_at i a hi with ⟨rfl, rfl⟩ | ⟨rfl, rfl⟩ | ⟨rfl, rfl⟩ <;>
+      rcases mrx_at j b hj with ⟨rfl, rfl⟩ | ⟨rfl, rfl⟩ | ⟨rfl, rfl⟩ <;>
+      first | exact absurd rfl hij | simp [mrx_i1, mrx_i2, mrx_i3]
+  acyc := by
+    intro j c hj
+    rcases mrx_at j c hj with ⟨_, rfl⟩ | ⟨_, rfl⟩ | ⟨_, rfl⟩ <;> simp [mrx_k1, mrx_k2, mrx_k3]
 
 end examples
 
